@@ -11,8 +11,12 @@ EXTENDS Integers, Sequences, FiniteSets, TLC
 PLUS == 0  STAR == -1  OPT == -2
 \* ---- the mapping the property states
 IsShapeRef(k) == Len(k) > 0 /\ SubSeq(k, 1, 1) = "@"
+(* a blank node inside a value set: its label has document scope only (the Turtle writer prints it as '[ ]'), so the two     *)
+(* documents agree when they both name *a* blank node; which one is outside what two separate documents can state.        *)
+IsBNodeLabel(k) == Len(k) >= 2 /\ SubSeq(k, 1, 2) = "_:"
+InValue(k) == IF IsBNodeLabel(k) THEN "_:" ELSE k
 ResOf(p, k, instProp) ==
-  IF p = instProp THEN <<"in", k>>
+  IF p = instProp THEN <<"in", InValue(k)>>
   ELSE CASE k = "IRI" -> <<"kind", "IRI">>
          [] k = "BNode" -> <<"kind", "BlankNode">>
          [] k = "NONLITERAL" -> <<"kind", "BlankNodeOrIRI">>
@@ -23,7 +27,7 @@ MaxOf(card) == CASE card = PLUS -> -1 [] card = STAR -> -1 [] card = OPT -> 1 []
 Translate(tc, instProp) == [inv |-> tc.inv, p |-> tc.p, res |-> ResOf(tc.p, tc.k, instProp), min |-> MinOf(tc.card), max |-> MaxOf(tc.card)]
 \* ---- the serializer as coded (ShaclSerializer._add_constraint and the macro table)
 ImplRes(p, k, instProp) ==
-  IF p = instProp THEN <<"in", k>>
+  IF p = instProp THEN <<"in", InValue(k)>>
   ELSE CASE k = "IRI" -> <<"kind", "IRI">>
          [] k = "LITERAL" -> <<"kind", "Literal">>
          [] k = "BNode" -> <<"kind", "BlankNode">>
@@ -32,14 +36,19 @@ ImplRes(p, k, instProp) ==
          [] IsShapeRef(k) -> <<"node", SubSeq(k, 2, Len(k))>>
          [] OTHER -> <<"dt", k>>
 ImplTranslate(tc, instProp) == [inv |-> tc.inv, p |-> tc.p, res |-> ImplRes(tc.p, tc.k, instProp), min |-> MinOf(tc.card), max |-> MaxOf(tc.card)]
-\* ---- verdict clauses: shex = set of [label, cls, tcs (set of [inv,p,k,card])], shacl = set of [iri, cls, props (set)]
+\* ---- verdict clauses
+\* shex = set of [label, cls, tcs (sequence of [inv,p,k,card])], shacl = set of [iri, cls, props (sequence)]: the constraints are
+\* compared as bags ("one property shape per triple constraint": a constraint emitted twice, or two merged into one, differ)
+BagEq(q1, q2) == /\ Len(q1) = Len(q2)
+                 /\ \A i \in 1..Len(q1) : Cardinality({j \in 1..Len(q1) : q1[j] = q1[i]}) = Cardinality({j \in 1..Len(q2) : q2[j] = q1[i]})
+NoCounts(q) == [i \in 1..Len(q) |-> [q[i] EXCEPT !.min = 0, !.max = 0]]
 EquivClauses(shex, shacl, instProp) ==
   (IF {s.label : s \in shex} # {n.iri : n \in shacl} THEN {"C11.shapes"} ELSE {}) \cup
   (IF \E s \in shex, n \in shacl : s.label = n.iri /\ n.cls # "" /\ s.cls # "" /\ n.cls # s.cls THEN {"C11.targetclass"} ELSE {}) \cup
-  UNION {LET want == {Translate(tc, instProp) : tc \in s.tcs}
-             got == UNION {n.props : n \in {m \in shacl : m.iri = s.label}}
-         IN (IF {[x EXCEPT !.min = 0, !.max = 0] : x \in want} # {[x EXCEPT !.min = 0, !.max = 0] : x \in got} THEN {"C11.constraints"} ELSE {}) \cup
-            (IF {[x EXCEPT !.min = 0, !.max = 0] : x \in want} = {[x EXCEPT !.min = 0, !.max = 0] : x \in got} /\ want # got THEN {"C11.counts"} ELSE {})
+  UNION {LET want == [i \in 1..Len(s.tcs) |-> Translate(s.tcs[i], instProp)]
+         IN UNION {(IF ~BagEq(NoCounts(want), NoCounts(n.props)) THEN {"C11.constraints"} ELSE {}) \cup
+                   (IF BagEq(NoCounts(want), NoCounts(n.props)) /\ ~BagEq(want, n.props) THEN {"C11.counts"} ELSE {})
+                   : n \in {m \in shacl : m.iri = s.label}}
          : s \in shex}
 ToSetOf(q) == {q[i] : i \in 1..Len(q)}
 \* ---- SHACL structural invariants (C05): every sh:node object is a declared node shape; every property shape has one path
